@@ -15,6 +15,15 @@ def main():
         job = json.load(f)
     logging.disable(logging.CRITICAL)
     core.guard_repo_import()
+    # reproducibility: the library draws handles / ids from uuid.uuid4() and the global random module; both are seeded per job so that a
+    # replay with the same VERIF_SEED generates the same handles (thread interleavings stay free)
+    import hashlib
+    import random
+    import uuid
+    digest = hashlib.sha256(repr((job['prop'], job['seed'], job['func'], job['arg'])).encode()).digest()
+    random.seed(digest)
+    _uuid_rng = random.Random(digest[::-1])
+    uuid.uuid4 = lambda: uuid.UUID(int=_uuid_rng.getrandbits(128), version=4)
     ctx = core.Ctx(job['prop'], job['tier'], job['seed'], job['level'])
     mod = importlib.import_module(job['module'])
     core.safe_run(ctx, getattr(mod, job['func']), job['arg'])
